@@ -887,6 +887,85 @@ fn own_pushfq() -> u64 {
     v
 }
 
+/// RFLAGS wrappers under single-step: every pushfq is emulated with a chosen prior value (incl. reserved bits, IF,
+/// IOPL) and every popfq is intercepted, so the operand of the write is observed exactly
+fn flags_step_tests(t: &mut T) {
+    let all = RFlags::all().bits();
+    let prior = (t.u64v() & 0xffff_ffff) | 2;
+    let arg = RFlags::from_bits_truncate(t.r.next());
+    let regs = trapemu::regs();
+    regs.capture_popfq = true;
+    regs.rflags_override = Some(prior);
+    x86_64::verif_hooks::RFLAGS_IF_OVERLAY.store(0, core::sync::atomic::Ordering::Relaxed);
+    let run = |f: &dyn Fn() -> u64| -> (u64, Vec<Event>) {
+        trapemu::regs().rflags_override = Some(prior);
+        trapemu::trapped(|| {
+            trapemu::step_begin();
+            let v = f();
+            trapemu::step_end();
+            v
+        })
+    };
+    // read_raw / read
+    let (v, evs) = run(&|| rflags::read_raw());
+    t.rep.eval();
+    if v != prior || evs.iter().filter(|e| e.kind == K::Pushfq).count() != 1 || evs.iter().any(|e| e.kind == K::Popfq) {
+        t.bad("rflags::read_raw(single-step)", "value-differs-from-register", vec![("register", J::hex(prior)), ("returned", J::hex(v))], &evs);
+    }
+    let (v, evs) = run(&|| rflags::read().bits());
+    t.rep.eval();
+    if v != prior & all {
+        t.bad("rflags::read(single-step)", "not-the-modelled-bits-of-raw", vec![("register", J::hex(prior)), ("returned", J::hex(v))], &evs);
+    }
+    // write: preserves the bits RFlags does not define
+    let (_, evs) = run(&|| {
+        unsafe { rflags::write(arg) };
+        0
+    });
+    t.rep.eval();
+    let pops: Vec<&Event> = evs.iter().filter(|e| e.kind == K::Popfq).collect();
+    let exp = (prior & !all) | arg.bits();
+    if pops.len() != 1 || pops[0].val != exp {
+        let what = if pops.len() != 1 { "not-exactly-one-popfq" } else if (pops[0].val ^ exp) & !all != 0 { "lost-or-changed-unmodelled-bits" } else { "stored-wrong-flags" };
+        t.bad("rflags::write(single-step)", what, vec![("prior", J::hex(prior)), ("flags", J::hex(arg.bits())), ("expected", J::hex(exp)), ("written", pops.first().map(|e| J::hex(e.val)).unwrap_or(J::Null))], &evs);
+    }
+    // write_raw: exact
+    let rawv = t.u64v() & 0xffff_ffff;
+    let (_, evs) = run(&|| {
+        unsafe { rflags::write_raw(rawv) };
+        0
+    });
+    t.rep.eval();
+    let pops: Vec<&Event> = evs.iter().filter(|e| e.kind == K::Popfq).collect();
+    if pops.len() != 1 || pops[0].val != rawv || evs.iter().any(|e| e.kind == K::Pushfq) {
+        t.bad("rflags::write_raw(single-step)", "not-exactly-the-given-value", vec![("value", J::hex(rawv))], &evs);
+    }
+    // update = read-modify-write
+    let tog = RFlags::from_bits_truncate(t.r.next());
+    let (_, evs) = run(&|| {
+        unsafe { rflags::update(|f| f.toggle(tog)) };
+        0
+    });
+    t.rep.eval();
+    let pops: Vec<&Event> = evs.iter().filter(|e| e.kind == K::Popfq).collect();
+    let exp = (prior & !all) | ((prior & all) ^ tog.bits());
+    if pops.len() != 1 || pops[0].val != exp {
+        t.bad("rflags::update(single-step)", "not-read-modify-write", vec![("prior", J::hex(prior)), ("toggle", J::hex(tog.bits())), ("expected", J::hex(exp)), ("written", pops.first().map(|e| J::hex(e.val)).unwrap_or(J::Null))], &evs);
+    }
+    // write -> read round trip
+    let (v, _) = run(&|| {
+        unsafe { rflags::write(arg) };
+        rflags::read().bits()
+    });
+    if v != arg.bits() {
+        t.bad("rflags::write->read(single-step)", "round-trip-differs", vec![("written", J::hex(arg.bits())), ("read", J::hex(v))], &[]);
+    }
+    let regs = trapemu::regs();
+    regs.capture_popfq = false;
+    regs.rflags_override = None;
+    t.rep.class(&format!("rflags|single-step|prior-unmodelled={}|if={}|iopl={}", prior & !all != 0, (prior >> 9) & 1, (prior >> 12) & 3));
+}
+
 fn flags_tests(t: &mut T) {
     const STABLE: u64 = !(0x1 | 0x4 | 0x10 | 0x40 | 0x80 | 0x800); // everything but the arithmetic status flags
     x86_64::verif_hooks::RFLAGS_IF_OVERLAY.store(0, core::sync::atomic::Ordering::Relaxed);
@@ -960,6 +1039,7 @@ pub fn run(a: &Args, rep: &mut Report) {
         seg_tests(&mut t);
         if i % 16 == 0 {
             flags_tests(&mut t);
+            flags_step_tests(&mut t);
         }
         if i < 2 {
             let evs = trapemu::events();
